@@ -18,7 +18,8 @@
 //@ rewrite PRE "let mut tuples = self" => "let mut tuples = scores"
 //@ rewrite PRE ".iter()" => ".iter_tok()"
 //@ rewrite PRE ".zip(y.iter_tok())" => ".zip_labels(y)"
-//@ rewrite PRE ".filter_map(|(a, b)| if **a >= 0.0 { Some((*a, *b)) } else { None })" => ".keep_nonneg_abs()   /* .filter_map(|(a, b)| if **a >= 0.0 { Some((*a, *b)) } else { None }): a Pr is never negative */"
+//@ rewrite? PRE ".filter_map(|(a, b)| if **a >= 0.0 { Some((*a, *b)) } else { None })" => ".keep_if_abs(Cmp::GeZero)   /* .filter_map(|(a, b)| if **a >= 0.0 { Some((*a, *b)) } else { None }) */"
+//@ rewrite? PRE ".filter_map(|(a, b)| if **a > 0.0 { Some((*a, *b)) } else { None })" => ".keep_if_abs(Cmp::GtZero)   /* .filter_map(|(a, b)| if **a > 0.0 { Some((*a, *b)) } else { None }) */"
 //@ rewrite PRE ".collect::<Vec<(Pr, bool)>>();" => ".collect_tok();"
 //@ drop PRE from "tuples.sort_unstable_by(&|a: &(Pr, _), b: &(Pr, _)| match a.0.partial_cmp(&b.0) {" through "});" as "        sort_by_score_abs(&mut tuples);   /* dropped: tuples.sort_unstable_by(&|a, b| a.0.partial_cmp(&b.0) ..) - ascending scores */"
 //@ expect-fail vacuity_guard_roc
@@ -57,6 +58,8 @@ proof fn lemma_count_step(s: Seq<(ScoreTok, bool)>, i: int)
 }
 
 // ---- roc(): from the two input slices to the sorted pair list, extracted from /repo on every run ----
+pub enum Cmp { GeZero, GtZero }
+pub uninterp spec fn spec_is_zero(s: ScoreTok) -> bool;
 pub struct ScoresTok { pub v: Ghost<Seq<ScoreTok>> }
 pub struct LabelsTok { pub v: Ghost<Seq<bool>> }
 pub struct PairsTok { pub v: Ghost<Seq<(ScoreTok, bool)>> }
@@ -66,8 +69,10 @@ impl ScoresTok {
     #[verifier::external_body] pub fn zip_labels(self, y: &LabelsTok) -> (r: PairsTok) ensures r.v@ == zipped(self.v@, y.v@) { unimplemented!() }
 }
 impl PairsTok {
-    // ASSUMED about the filter closure `**a >= 0.0`: every probability (type Pr, range [0,1]) passes, so nothing is dropped
-    #[verifier::external_body] pub fn keep_nonneg_abs(self) -> (r: PairsTok) ensures r.v@ == self.v@ { unimplemented!() }
+    // the filter closure: `>= 0.0` lets every probability pass (type Pr, range [0,1] - ASSUMED), `> 0.0` drops the pairs whose score is 0
+    #[verifier::external_body] pub fn keep_if_abs(self, c: Cmp) -> (r: PairsTok)
+        ensures c is GeZero ==> r.v@ == self.v@, c is GtZero ==> r.v@ == self.v@.filter(|p: (ScoreTok, bool)| !spec_is_zero(p.0)),
+    { unimplemented!() }
     #[verifier::external_body] pub fn collect_tok(self) -> (r: Vec<(ScoreTok, bool)>) ensures r@ == self.v@ { unimplemented!() }
 }
 pub uninterp spec fn spec_score_le(a: ScoreTok, b: ScoreTok) -> bool;
